@@ -14,8 +14,12 @@
   (GM.Model.Util, GM.Model.Writer) and they are tied to the Go functions by the `util` correspondence.
   The whole BLOCK PHASE is modelled (GM.Model.Blocks) and proved to terminate on every byte string.
   The whole INLINE PHASE with the concrete parsers is modelled (GM.Model.Inlines*) and proved total (no panic, terminates).
-  What is NOT proved: no-panic of the block phase as a whole (per-parser results so far), blocks with tab padding in
-  the inline phase, the paragraph transformer, the extensions' parsers, stack depth, super-linear running time. That part is
+  The COMPOSITION for the default CommonMark configuration (block phase with the link reference paragraph transformer,
+  inline phase of every block, renderer; GM.Model.Convert, tied to goldmark.Convert on whole documents by component
+  `convert`) never hangs: convert_never_loops.
+  What is NOT proved: no-panic of the COMPOSITION (GM.Props.Convert.NoPanic: the block phase with the paragraph
+  transformer and the hand-over of block lines to the inline phase; the block phase alone and the inline phase alone
+  are proved panic-free), the extensions' parsers, stack depth, super-linear running time. That part is
   searched: component `total` (exhaustive short strings + mutated corpus under the configuration lattice,
   panic recovery, per-input watchdog, Convert vs Parse+Render).
 -/
@@ -30,6 +34,7 @@ import GM.Props.C02a
 import GM.Props.Blocks
 import GM.Props.Inlines
 import GM.Props.Attribute
+import GM.Props.Convert
 
 namespace GM.Props.C01
 open GM
@@ -113,5 +118,17 @@ theorem atx_open_total : type_of% @GM.Props.Blocks.atx_open_total := @GM.Props.B
 theorem attribute_parser_total : type_of% @GM.Props.Attribute.parseAttributes_total := @GM.Props.Attribute.parseAttributes_total
 theorem attribute_last_line_total : type_of% @GM.Props.Attribute.lastLineAttrs_total := @GM.Props.Attribute.lastLineAttrs_total
 theorem attribute_heading_total : type_of% @GM.Props.Attribute.atx_heading_attrs_inv := @GM.Props.Attribute.atx_heading_attrs_inv
+
+/-- The whole pipeline of the default CommonMark configuration (package `convert`): `convertCore` — block phase WITH the
+    link reference paragraph transformer, inline phase of every non-raw block, HTML renderer, options Unsafe / XHTML /
+    HardWraps — never ends in fuel exhaustion, for EVERY byte string; its outcome is HTML or a non-loop error; the block
+    driver with ANY admissible list of paragraph transformers terminates. -/
+theorem convert_never_loops : type_of% @GM.Props.Convert.convert_never_loops := @GM.Props.Convert.convert_never_loops
+theorem convert_outcome : type_of% @GM.Props.Convert.convert_outcome := @GM.Props.Convert.convert_outcome
+theorem block_phase_with_transformers_terminates : type_of% @GM.Props.Convert.block_phase_with_transformers_terminates :=
+  @GM.Props.Convert.block_phase_with_transformers_terminates
+theorem link_reference_scanner_total : type_of% @GM.Props.Convert.definition_scanner_total := @GM.Props.Convert.definition_scanner_total
+theorem link_reference_scan_total : type_of% @GM.Props.Convert.transform_scan_total := @GM.Props.Convert.transform_scan_total
+theorem link_reference_scan_never_loops : type_of% @GM.Props.Convert.transform_never_loops := @GM.Props.Convert.transform_never_loops
 
 end GM.Props.C01
